@@ -234,6 +234,11 @@ class Gen:
         return self.block(depth)
 
     def block(self, depth, braces=True):
+        if depth > 0 and getattr(self.o, 'empty_blocks', True) and self.rng.random() < 0.07:
+            # a body / branch without effect: `{ }`, `;`, `{ ; }`, `{ x = x; }`
+            self.note('effect_free_block')
+            v = self.var()
+            return self.rng.choice(['{ }', ';', '{ ; }', '{ %s = %s; }' % (v, v), '{ { } }'])
         n = self.rng.randint(1, self.o.max_stmts)
         stmts = [self.stmt(depth) for _ in range(n)]
         if not braces and n >= 1:
